@@ -191,6 +191,17 @@ func (m *CLIManager) Install(ctx context.Context, installOpts CLIInstallOptions)
 			}
 		}
 	}
+	pluginDirPath, err := m.pluginFS.SysPath(pluginName)
+	if err != nil {
+		return nil, nil, fmt.Errorf("failed to get the system path of plugin %s: %w", pluginName, err)
+	}
+	// a plugin cannot be installed from its own installation directory: the
+	// clean up below would remove the source before it is copied
+	if srcInfo, err := os.Stat(filepath.Dir(pluginExecutableFile)); err == nil {
+		if dstInfo, err := os.Stat(pluginDirPath); err == nil && os.SameFile(srcInfo, dstInfo) {
+			return nil, nil, fmt.Errorf("failed to install plugin %s: the source %s is the plugin's installation directory", pluginName, installOpts.PluginPath)
+		}
+	}
 	// clean up before installation, this guarantees idempotent for install
 	if err := m.Uninstall(ctx, pluginName); err != nil {
 		if !errors.Is(err, os.ErrNotExist) {
@@ -198,10 +209,6 @@ func (m *CLIManager) Install(ctx context.Context, installOpts CLIInstallOptions)
 		}
 	}
 	// core process
-	pluginDirPath, err := m.pluginFS.SysPath(pluginName)
-	if err != nil {
-		return nil, nil, fmt.Errorf("failed to get the system path of plugin %s: %w", pluginName, err)
-	}
 	if installFromNonDir {
 		if err := file.CopyToDir(pluginExecutableFile, pluginDirPath); err != nil {
 			return nil, nil, fmt.Errorf("failed to copy plugin executable file from %s to %s: %w", pluginExecutableFile, pluginDirPath, err)
